@@ -158,7 +158,8 @@ class Gen(object):
         if k == 'amb':
             return light.AmbientLight(self.uid('light'), col)
         if k == 'point':
-            return light.PointLight(self.uid('light'), col, opt(), opt(), opt(), opt())
+            # <zfar> of a point light does not exist in the 1.4.1 schema
+            return light.PointLight(self.uid('light'), col, opt(), opt(), opt(), None if self.o['schema'] else opt())
         return light.SpotLight(self.uid('light'), col, opt(), opt(), opt(), opt(), opt())
 
     def camera(self):
